@@ -2,7 +2,7 @@
 from specs import local, s3, b2
 
 LEVEL = 'proof'
-UNITS = local.units('C13') + s3.list_units('C13') + s3.method_units('C13')[:3] + b2.units('C13')[:1] + b2.units('C13')[2:]
+UNITS = local.units('C13') + s3.list_units('C13') + s3.method_units('C13')[:3] + b2.units('C13')[:1] + b2.units('C13')[3:]
 BOUNDED = [{'name': 'C13.local.list_names', 'script': 'bounded/c13_local.py', 'timeout': 600, 'bound': '9 spellings of the repository path x 8 names (incl. .tmp suffix, spaces, non-ASCII) x all prefixes of those names; 10 (thorough: 40) seeded random operation sequences of 25 ops against a dict model'}]
 TRUSTED = [
     'vf symbolic executor (/verif/vf): encoding of the Python subset (DESIGN 2.2)',
